@@ -29,7 +29,24 @@ fn extreme_int(rng: &mut Rng) -> i64 {
     ])
 }
 
+/// A long string in which multi-byte characters sit at every byte offset around the usual cut-off lengths.
+fn long_multibyte(rng: &mut Rng) -> String {
+    let edge = *rng.pick(&[16usize, 32, 64, 100, 128, 255, 256, 512, 1000, 1024, 2048, 4096]);
+    let lead = edge - 1 - rng.usize(4).min(edge - 1);
+    let filler = *rng.pick(&['a', ' ', '{', '"', '0']);
+    let mut s: String = std::iter::repeat(filler).take(lead).collect();
+    let wide = *rng.pick(&['\u{e9}', '\u{4e2d}', '\u{1f600}', '\u{fffd}']);
+    for _ in 0..2 + rng.usize(6) {
+        s.push(wide);
+    }
+    s.extend(std::iter::repeat(filler).take(rng.usize(40)));
+    s
+}
+
 fn hostile_value(rng: &mut Rng, key: &str) -> Val {
+    if rng.chance(1, 8) {
+        return Val::S(long_multibyte(rng));
+    }
     match rng.below(8) {
         0 => Val::B(rng.bool()),
         1 => Val::S(rng.pick(&["", "0", "-1", "plan-0", "{}", "null", "1.0.0.0", "\u{0}", "7.7.7"]).to_string()),
@@ -121,6 +138,35 @@ fn hostile_body(rng: &mut Rng, apps: &[AppSpec]) -> (Vec<u8>, String) {
         7 => (b"\xef\xbb\xbf{}".to_vec(), "bom".into()),
         _ => (good, "valid".into()),
     }
+}
+
+/// ETag values shaped like (and unlike) the CUP `<DER signature hex>:<request hash hex>` form.
+fn hostile_etag(rng: &mut Rng) -> Vec<u8> {
+    let sig = "3045022100".to_string() + &"ab".repeat(32) + "0220" + &"cd".repeat(32);
+    let hexn = |rng: &mut Rng, n: usize| -> String { (0..n).map(|_| format!("{:02x}", rng.below(256))).collect() };
+    let s = match rng.below(14) {
+        0 => "3045:abcd".to_string(),
+        1 => "deadbeef:".to_string(),
+        2 => ":".to_string(),
+        3 => format!("{}:{}", sig, hexn(rng, 31)),
+        4 => format!("{}:{}", sig, hexn(rng, 33)),
+        5 => format!("{}:{}", sig, hexn(rng, 32)),
+        6 => format!("{}:", sig),
+        7 => format!(":{}", hexn(rng, 32)),
+        8 => format!("W/\"{}:{}\"", sig, hexn(rng, 32)),
+        9 => {
+            let (a, b) = (1 + rng.usize(80), rng.usize(70));
+            format!("\"{}:{}\"", hexn(rng, a), hexn(rng, b))
+        }
+        10 => format!("{}:{}:{}", hexn(rng, 8), hexn(rng, 32), hexn(rng, 32)),
+        11 => format!("{}:{}", hexn(rng, 70), "zz".repeat(32)),
+        12 => {
+            let (a, b) = (rng.usize(4), rng.usize(4));
+            format!("{}:{}", hexn(rng, a), hexn(rng, b))
+        }
+        _ => "\"".to_string(),
+    };
+    s.into_bytes()
 }
 
 fn hostile_headers(rng: &mut Rng) -> Vec<(String, Vec<u8>)> {
@@ -220,8 +266,8 @@ fn judge_progress(m: &mut Mon, run: &CaseRun, case: &FlowCase, what: &str) {
 pub fn run(args: &Args, r: &mut Report) {
     r.rule_text = "Six hostile workloads through the real state machine with a formatting log subscriber installed (every log argument is \
         rendered): (1) response bytes {random, truncated / bit-flipped / deeply nested / huge-number / BOM / XSSI documents} with \
-        arbitrary header sets and statuses as replies to update checks, event reports and pings; (2) pre-existing storage with every \
-        key the library reads set to every type x {0, +-1, u32 / i32 / i64 extremes, chrono range edges}; (3) service-URL strings \
+        arbitrary header sets (ETags of and near the CUP `sig:hash` form included) and statuses as replies to update checks, event reports and pings; (2) pre-existing storage with every \
+        key the library reads set to every type x {long strings with multi-byte characters straddling the usual cut-off lengths, 0, +-1, u32 / i32 / i64 extremes, chrono range edges}; (3) service-URL strings \
         (grammar + garbage); (4) clock trajectories with wall-clock jumps (-50 y, +300 000 y, to / before the epoch) under a monotone \
         monotonic clock; (5) storage faults: every single mutating operation failing, pairs, random subsets, all-fail, judged \
         differentially against the healthy run of the same scenario (requests with ids normalised + announced events; metrics \
@@ -280,7 +326,8 @@ pub fn run(args: &Args, r: &mut Report) {
                             lab.push_str(&l);
                             lab.push(',');
                             let status = *rng.pick(&[200u16, 200, 200, 201, 204, 299, 300, 404, 500, 599, 100]);
-                            *a = RespSpec::Reply(ReplySpec { status, headers: hostile_headers(&mut rng), body: BodySpec::Raw(b), etag: EtagSpec::Auto });
+                            let etag = if rng.chance(1, 3) { EtagSpec::Raw(hostile_etag(&mut rng)) } else { EtagSpec::Auto };
+                            *a = RespSpec::Reply(ReplySpec { status, headers: hostile_headers(&mut rng), body: BodySpec::Raw(b), etag });
                         }
                     }
                 }
@@ -288,7 +335,8 @@ pub fn run(args: &Args, r: &mut Report) {
                     if rng.bool() {
                         let (b, l) = hostile_body(&mut rng, &apps);
                         lab.push_str(&l);
-                        *p = RespSpec::Reply(ReplySpec { status: 200, headers: hostile_headers(&mut rng), body: BodySpec::Raw(b), etag: EtagSpec::Auto });
+                        let etag = if rng.chance(1, 3) { EtagSpec::Raw(hostile_etag(&mut rng)) } else { EtagSpec::Auto };
+                        *p = RespSpec::Reply(ReplySpec { status: 200, headers: hostile_headers(&mut rng), body: BodySpec::Raw(b), etag });
                     }
                 }
                 case.shape.push(lab);
